@@ -43,6 +43,21 @@ class World:
             n_first = len(self.sw.ncp.first_after_reset)
             # a later reset, as ControllerApplication._reset does it
             ez.stop_ezsp()
+            if self.p.get("cmd_during_reset"):
+                # another coroutine (watchdog, a send) issues a command while the reset is suspended between RST and RSTACK: it may
+                # fail or wait, but whatever it puts on the wire must be framed for the state the NCP is in
+                async def probe():
+                    for _ in range(3):
+                        await asyncio.sleep(0)
+                    try:
+                        await ez.nop()
+                        self.phase_log.append("probe-completed")
+                    except asyncio.CancelledError:
+                        raise
+                    except BaseException as e:  # noqa
+                        self.phase_log.append(("probe-raised", type(e).__name__))
+
+                self.probe_task = self.sw.loop.create_task(probe())
             if self.p.get("restart2"):
                 # the NCP restarts on its own just then (a network co-processor daemon that crashed and came back): its RSTACK
                 # reaches the host while the second start-up waits for exactly such a reset on a socket path
@@ -108,7 +123,7 @@ class World:
         else:
             out.append((("end",), 0))
         # (the phases before the re-use are covered with faults by the configurations without it)
-        if self.steps < 3000 and not self.task.done() and (not (self.p.get("reuse") or self.p.get("restart2")) or "reconfigured" in self.phase_log or
+        if self.steps < 3000 and not self.task.done() and (not (self.p.get("reuse") or self.p.get("restart2") or self.p.get("cmd_during_reset")) or "reconfigured" in self.phase_log or
                                                            (self.p.get("restart2") and "configured" in self.phase_log)):
             for line, q in (("h2n", sw.h2n), ("n2h", sw.n2h)):
                 if q:
@@ -262,7 +277,7 @@ def vkey(msg, params):
 
 
 def param_list(tier):
-    versions = [4, 7, 8, 14, 15] if tier == "quick" else list(range(4, 17)) + [255]
+    versions = [4, 5, 7, 8, 14, 15] if tier == "quick" else list(range(4, 17)) + [255]
     out = []
     for v in versions:
         out.append({"version": v, "path": "/dev/ttyFAKE", "spontaneous": None})
@@ -273,6 +288,8 @@ def param_list(tier):
             out.append({"version": v, "path": "/dev/ttyFAKE", "spontaneous": "early"})
         if tier != "quick" or v in (4, 8, 15):
             out.append({"version": v, "path": "/dev/ttyFAKE", "spontaneous": None, "reuse": True})
+        if tier != "quick" or v in (5, 8, 14):
+            out.append({"version": v, "path": "/dev/ttyFAKE", "spontaneous": None, "cmd_during_reset": True})
         if tier != "quick" or v in (7, 8, 15):
             # the second start-up (socket path) sees a reset the NCP made on its own
             out.append({"version": v, "path": "socket://host:1", "spontaneous": "early", "restart2": True})
